@@ -28,16 +28,16 @@ type KV struct {
 }
 
 type Case struct {
-	Kind     string     `json:"kind"` // content | big | list
-	Partial  bool       `json:"partial,omitempty"`
-	Entries  []KV       `json:"entries,omitempty"`
-	Prefixes []string   `json:"prefixes,omitempty"`
-	Zstd     bool       `json:"zstd,omitempty"`
-	N        int        `json:"n,omitempty"`    // big: entry count
-	KLen     int        `json:"klen,omitempty"` // big: key length
-	VLen     int        `json:"vlen,omitempty"`
+	Kind     string      `json:"kind"` // content | big | list
+	Partial  bool        `json:"partial,omitempty"`
+	Entries  []KV        `json:"entries,omitempty"`
+	Prefixes []string    `json:"prefixes,omitempty"`
+	Zstd     bool        `json:"zstd,omitempty"`
+	N        int         `json:"n,omitempty"`    // big: entry count
+	KLen     int         `json:"klen,omitempty"` // big: key length
+	VLen     int         `json:"vlen,omitempty"`
 	Files    [][3]uint64 `json:"files,omitempty"` // list: (start, end, partial?1:0)
-	Below    uint64     `json:"below,omitempty"`
+	Below    uint64      `json:"below,omitempty"`
 }
 
 var combo = refmodel.Combo{Policy: "set", VT: "bytes"}
@@ -84,7 +84,9 @@ func evalContent(cs Case) (*core.Fail, bool) {
 	for _, p := range cs.Prefixes {
 		pre = append(pre, refmodel.Op{T: "d", K: p, O: 0})
 	}
-	desc := func() string { return fmt.Sprintf("partial=%v entries=%q prefixes=%q zstd=%v", cs.Partial, cs.Entries, cs.Prefixes, cs.Zstd) }
+	desc := func() string {
+		return fmt.Sprintf("partial=%v entries=%q prefixes=%q zstd=%v", cs.Partial, cs.Entries, cs.Prefixes, cs.Zstd)
+	}
 	want := map[string][]byte{}
 	var wantSize uint64
 	for _, e := range cs.Entries {
